@@ -414,6 +414,18 @@ pub fn run(opts: &Opts) -> Vec<Report> {
         r.bound = format!("all histories of length <= {} over insert_explicit / insert_logical(one premise) / add_justification / retract / a rule firing that derives a fact from a and retracts a / a rule firing that retracts a, retracts a again and retracts b; <= 5 facts", depth);
         out.push(r);
     }
+    // (b') from a prepared support graph — three explicit facts 0, 1, 2, a derived fact 3 <- [0] and a fact 4 <- [3] that
+    // rests on the derived one — every history over the single-premise alphabet: facts with three and more
+    // justifications of which one goes through a derived premise, and every retraction order
+    if crate::props::wants(opts, "tms_from_prepared_graph") {
+        let depth = if opts.tier == Tier::Quick { 4 } else { 5 };
+        let mut cfg = Config::new("tms_from_prepared_graph", depth);
+        cfg.ctx = json!({"max_facts": 6, "prepared": "0, 1, 2 explicit; 3 <- [0]; 4 <- [3]"});
+        cfg.expected_letters = ["add_justification", "retract"].iter().map(|s| s.to_string()).collect();
+        let mut r = explore::explore(&prepared, &cfg);
+        r.bound = format!("from the prepared graph (0, 1, 2 explicit; 3 <- [0]; 4 <- [3]): all histories of length <= {} over insert_explicit / insert_logical(one premise) / add_justification(one premise) / retract; <= 6 facts", depth);
+        out.push(r);
+    }
     // (c) families with up to 7 facts to depth 10: restricted alphabet (no second justifications in
     // quick; pairs only in insert) — every retraction order of every shape of <= 7 facts
     if crate::props::wants(opts, "tms_7facts") {
@@ -423,6 +435,16 @@ pub fn run(opts: &Opts) -> Vec<Report> {
         out.push(explore::explore(&|| SysNoAdd(Sys::new(7, false, false)), &cfg));
     }
     out
+}
+
+fn prepared() -> Sys {
+    let mut s = Sys::new(6, false, false);
+    for op in [Op::InsertExplicit, Op::InsertExplicit, Op::InsertExplicit, Op::InsertLogical(vec![0]), Op::InsertLogical(vec![3])] {
+        if let Err(m) = s.step(&op) {
+            crate::explore::machinery(&format!("C08 prepared graph: {:?} -> {} {}", op, m.class, m.detail));
+        }
+    }
+    s
 }
 
 /// Same system without `AddJustification` letters (keeps branching small for the 7-fact family).
@@ -458,6 +480,7 @@ pub fn replay(case: &serde_json::Value) -> crate::props::ReplayResult {
     let sub = case["sub"].as_str().unwrap_or("tms_full").to_string();
     let r = match sub.as_str() {
         "tms_single" => explore::replay(&|| Sys::new(5, false, false), &ch),
+        "tms_from_prepared_graph" => explore::replay(&prepared, &ch),
         "tms_rule_firings" => explore::replay(&|| Sys::new(5, false, false).with_rule_firings(), &ch),
         "tms_7facts" => explore::replay(&|| SysNoAdd(Sys::new(7, false, false)), &ch),
         _ => explore::replay(&|| Sys::new(5, true, true), &ch),
